@@ -31,12 +31,6 @@ import (
 
 var keys = []string{"kind", "dir", "ns", "im"}
 
-// Known findings: placeholder ids, see the signature predicates in oracleOnce.
-const (
-	knownSubNoPrefix = "D7x-sub-noprefix" // augment written in a submodule whose first step has no prefix
-	knownActionNoIO  = "D7x-action-no-io" // action without input and output: its implicit input/output cannot be augmented
-)
-
 // know is the generator knowledge that travels with a case.
 type know struct {
 	Shape       string            `json:"shape"`
@@ -149,17 +143,9 @@ func oracleOnce(k *know, dump []string) []string {
 		}
 		return nil
 	}
-	knownOf := func(a *gen.C07Aug) string {
-		switch {
-		case a == nil:
-			return ""
-		case a.SubNoPrefix:
-			return knownSubNoPrefix
-		case a.ActionNoIO:
-			return knownActionNoIO
-		}
-		return ""
-	}
+	// knownOf: signature predicates of known findings (none at present: the two shapes that used to be
+	// tagged, an unprefixed first step inside a submodule and an action without input/output, are repaired).
+	knownOf := func(a *gen.C07Aug) string { return "" }
 	if !k.ExpectClean {
 		// some augment cannot be applied: the set must end in errors
 		if len(errs) == 0 {
@@ -706,7 +692,7 @@ func corpus(seed int64) []rescorr.Case {
 			"  augment \"/pa:n/pa:nc\" { leaf b2 { type string; } }\n" +
 			"  augment \"/pa:x/pa:act/pa:output\" { leaf b3 { type string; } }\n}\n"},
 		ap(nd("a", "/a/n/b1", "urn:b")), ap(nd("a", "/a/n/nc/b2", "urn:b")), ap(nd("a", "/a/x/act/output/b3", "urn:b")))
-	// 12. (suspected defect) augment written in a submodule, first step without prefix
+	// 12. augment written in a submodule, first step without prefix: the owner's tree is meant
 	add("sub-noprefix", []string{"a.yang", "a-s1.yang"}, []string{
 		hdr("a", "a-s1") + "  container x {\n    leaf l { type string; }\n  }\n}\n",
 		"submodule a-s1 {\n  belongs-to a { prefix pa; }\n  container xs {\n    leaf q { type string; }\n  }\n" +
@@ -717,7 +703,7 @@ func corpus(seed int64) []rescorr.Case {
 		"submodule a-s1 {\n  belongs-to a { prefix pa; }\n  container xs {\n    leaf q { type string; }\n  }\n" +
 			"  augment \"/x\" { leaf s1 { type string; } }\n}\n"},
 		cAug{expect: gen.C07Apply, nodes: []gen.C07Node{nd("a", "/a/x/s1", "urn:a")}, flag: "subnoprefix"})
-	// 13. (suspected defect) action without input and output
+	// 13. action without input and output: implicit input/output
 	add("action-no-io", []string{"a.yang", "b.yang"}, []string{
 		hdr("a") + "  container x {\n    action act;\n  }\n}\n",
 		hdr("b", "a") + "  augment \"/pa:x/pa:act/pa:input\" { leaf b1 { type string; } }\n}\n"},
@@ -744,14 +730,14 @@ func finding(s string) (kind, known, text string) {
 	return s[:i], s[i+1 : j], s[j+3:]
 }
 
-// shapeOf: every second set is mixed; the others cycle through the named shapes, the two
-// suspected-defect shapes and the outside-claim shape only in every fourth round.
+// shapeOf: every second set is mixed; the others cycle through the named shapes, the
+// outside-claim shape only in every fourth round.
 func shapeOf(i int) int {
 	if i%2 == 0 {
 		return gen.C07Mixed
 	}
 	shape := 1 + (i/2)%(gen.C07NumShapes-1)
-	if (shape == gen.C07ImplicitCase || shape == gen.C07SubNoPrefix || shape == gen.C07ActionNoIO) && (i/2/(gen.C07NumShapes-1))%4 != 0 {
+	if shape == gen.C07ImplicitCase && (i/2/(gen.C07NumShapes-1))%4 != 0 {
 		shape = gen.C07ChainWorst + (i/2)%2
 	}
 	return shape
